@@ -109,7 +109,7 @@ def enc_opt(f, v):
 
 
 ERR = {'ValueError': 1, 'ConfigError': 2, 'NotImplementedError': 3, 'TimeoutException': 4, 'NegativeResponseException': 5,
-       'InvalidResponseException': 6, 'UnexpectedResponseException': 7, 'RuntimeError': 8,
+       'InvalidResponseException': 6, 'UnexpectedResponseException': 7, 'RuntimeError': 8, 'OSError': 8,
        'IndexError': 20, 'error': 21, 'AttributeError': 22, 'TypeError': 23, 'OverflowError': 24, 'AssertionError': 25,
        'KeyError': 26}
 DOCUMENTED = {1, 2, 3, 4, 5, 6, 7, 8}
